@@ -115,10 +115,19 @@ def handleRuns (c : Json) : JE Json := do
   let globals ← parseHds c "globals"
   let userInit ← parseUserInit c
   let opts ← (J.arrD c "opts").mapM parseOpt
+  -- a resume whose restore is refused by the caller's state modifier ("top" / the key of a nested graph)
+  let refuse : Option ResumeFail := match J.strD c "resumeFail" "" with
+    | "" => none
+    | "top" => some .top
+    | k => some (.sub k)
   let runs := sh.runs.map fun first =>
-    let cs : Case := { globals := globals, userInit := userInit, opts := opts, units := runUnits sh first }
+    let us := match first, refuse with
+      | false, some w => failedResumeUnits sh w
+      | _, _ => runUnits sh first
+    let cs : Case := { globals := globals, userInit := userInit, opts := opts, units := us }
     Json.mkObj [("first", Json.bool first),
-                ("outcome", Json.str (if first && sh.interrupts then "interrupt" else "ok")),
+                ("outcome", Json.str (if first && sh.interrupts then "interrupt"
+                                      else if !first && refuse.isSome then "error" else "ok")),
                 ("units", J.mkArr (unitsJson cs))]
   let cbs := buildCbs opts
   pure <| Json.mkObj [("runs", J.mkArr runs), ("cbsLen", (cbs.2.len : Json)), ("cbsCap", (cbs.2.cap : Json))]
